@@ -677,6 +677,7 @@ func c12Frame(t *testing.T, tape *simrt.Tape, body func(e *c12Env)) *simwork.Res
 	runtime.GC()
 	runtime.GC()
 	env := &c12Env{res: res, tape: tape, cover: map[string]bool{}}
+	netMark := verifNetStart()
 	p := simwork.Bubble(t, func(t *testing.T) {
 		defer func() {
 			if r := recover(); r != nil {
@@ -701,6 +702,7 @@ func c12Frame(t *testing.T, tape *simrt.Tape, body func(e *c12Env)) *simwork.Res
 		body(env)
 		res.End = "done"
 	})
+	verifNetFaults(res, netMark)
 	if p != nil {
 		res.Violations = append(res.Violations, simwork.Violation{Class: "c12/panic", Detail: fmt.Sprintf("bubble: %v", p)})
 		if res.End == "" {
